@@ -76,6 +76,9 @@ const POSITIONS: &[(&str, &str)] = &[
     ("after-the-same-import", "<the same import>"),
     // a byte order mark is not part of the sheet: the import is the first rule
     ("after-byte-order-mark", "\u{FEFF}"),
+    // `<!--` and `-->` between rules are ignored by CSS: the import behind them is a rule of its own, and after `<!--` alone it is the first
+    ("after-cdo", "<!--"),
+    ("after-rule-and-cdc", ".r{k:v}-->"),
 ];
 
 fn percent_decode(s: &str) -> Option<String> {
@@ -262,9 +265,9 @@ fn check(c: &Case) -> Result<Option<Vec<(String, String)>>, String> {
         if c.pos == 0 && flagged != 0 {
             problems.push(("import-at-top-flagged".into(), format!("{} warnings", flagged)));
         }
-        let misplaced = if c.pos < 2 || POSITIONS[c.pos].0 == "after-byte-order-mark" { 0 } else if POSITIONS[c.pos].0 == "after-rule-and-import" { 2 } else { 1 };
+        let misplaced = if c.pos < 2 || POSITIONS[c.pos].0 == "after-byte-order-mark" || POSITIONS[c.pos].0 == "after-cdo" { 0 } else if POSITIONS[c.pos].0 == "after-rule-and-import" { 2 } else { 1 };
         // (whether an import that follows only imports is flagged is not asserted)
-        if c.pos >= 2 && POSITIONS[c.pos].0 != "after-the-same-import" && flagged != misplaced {
+        if c.pos >= 2 && POSITIONS[c.pos].0 != "after-the-same-import" && POSITIONS[c.pos].0 != "after-cdo" && flagged != misplaced {
             problems.push(("import-after-rule-not-flagged".into(), format!("position {}: {} imports stand after another rule, {} are flagged", POSITIONS[c.pos].0, misplaced, flagged)));
         }
         if others != 0 {
